@@ -16,7 +16,7 @@
 import daiquiri
 
 from metapype.model.node import Node
-from xml.sax.saxutils import escape, unescape
+from xml.sax.saxutils import escape, quoteattr, unescape
 
 
 logger = daiquiri.getLogger("export: " + __name__)
@@ -36,8 +36,8 @@ def to_xml(node: Node, level: int = 0) -> str:
     name = node.name
     attributes = ""
     for attribute in node.attributes:
-        attributes += ' {0}="{1}"'.format(
-            attribute, node.attributes[attribute]
+        attributes += ' {0}={1}'.format(
+            attribute, quoteattr(str(node.attributes[attribute]))
         )
     if level == 0:
         indent = ""
